@@ -4,6 +4,7 @@ package sim
 // C07 M1 — the rollback after a failed canary. C15 — canary node selection.
 
 import (
+	metav1 "k8s.io/apimachinery/pkg/apis/meta/v1"
 	"encoding/json"
 	"fmt"
 	"sort"
@@ -248,7 +249,9 @@ func (m *monC05) checkCanaryNodes(s *Sim, t *Task, v *SyncView, st *edsv1.Extend
 	}
 	var sel labels.Selector = labels.Everything()
 	if can.NodeSelector != nil {
-		sel = labels.SelectorFromSet(can.NodeSelector.MatchLabels)
+		if x, err := metav1.LabelSelectorAsSelector(can.NodeSelector); err == nil {
+			sel = x
+		}
 	}
 	spec := &up.Spec.Template.Spec
 	valid := func(n *corev1.Node) bool { return n != nil && sel.Matches(labels.Set(n.Labels)) && eligibleSpec(n, spec) }
